@@ -290,6 +290,12 @@ func mainAmode(seed uint64, n int) {
 			emit(sh, uint32(rng.Pick(offpool)), true)
 		}
 	}
+	// two shifts of ONE register: the first is shifted in place, the second reads the shifted register (latent defect
+	// of lowerAddendsToAmode found by this stream; modelled by Amode.v's `alias`, outside the class of the theorem)
+	for k := uint64(1); k <= 3; k++ {
+		emit(&Tree{K: "ADD", M: true, A: &Tree{K: "SHL", C: k, M: true, A: &Tree{K: "V64", R: 3}}, B: &Tree{K: "SHL", C: 4 - k, M: true, A: &Tree{K: "V64", R: 3}}},
+			uint32(rng.Pick(offpool)), false)
+	}
 	// (2) random trees over the whole of e64
 	for i := 0; i < n; i++ {
 		var e *Tree
